@@ -43,12 +43,12 @@ THEOREMS = [
     "C12_dispatch_cell_exact",
     "C12_dispatch_data_exact",
     "C12_dispatch",
-    "C12_param_keys_refuted",
-    "C12_param_keys_partial",
+    "C12_param_keys",
     "C12_arity",
     "C12_lexclass",
-    "C12_lexclass_particles_refuted",
-    "C12_lexclass_particles_partial",
+    "C12_lexclass_particles",
+    "C12_expects_particle",
+    "C12_lexclass_particles_elsewhere",
 ]
 
 MODES = ["single", "wrapped", "mixed"]
@@ -200,7 +200,7 @@ def check_cell(spec, c):
         return "geometry"
     nodes = c.parameters.nodes
     for p in spec["params"]:
-        key = (p["key"] + ((":" + ",".join(p["pl"])) if p.get("pl") else "")).lower()
+        key = (p["key"] + (str(int(p["idx"])) if p.get("idx") else "") + ((":" + ",".join(p["pl"])) if p.get("pl") else "")).lower()
         if key not in nodes:
             return "param-missing:" + p["key"]
         v = p["val"]
@@ -437,17 +437,9 @@ def rule_tag(spec):
     return "+".join(sorted(tags)) if tags else {"cell": "Cell", "surface": "Surface:" + spec.get("mn", ""), "data": "Data"}[kind]
 
 
-CAUSES = [
-    ("PL:keyword-letter", lambda t: "PL:keyword-letter" in t or "Mode:particle-keyword-letter" in t),
-    ("PL:letter-c", lambda t: "PL:letter-c" in t),
-    ("CellParam:indexed-repeat", lambda t: "CellParam:indexed-repeat" in t),
-    ("Entry:multiply-real", lambda t: "Entry:multiply-real" in t),
-    ("Data:multiply", lambda t: "Entry:multiply" in t and any(x.startswith("Data:") for x in t)),
-    ("MatParam:elib", lambda t: "MatParam:elib" in t),
-    ("Zaid:mixed", lambda t: "Zaid:mixed" in t),
-    ("Sdef:empty", lambda t: "Sdef:empty" in t),
-    ("TallyBins:group", lambda t: "TallyBins:group" in t),
-]
+# (cause name, predicate over the rule tags of a shrunk sentence): families with a recorded finding.  Empty since
+# round 3: every finding of rounds 1-2 is repaired; a new recorded finding gets its entry here.
+CAUSES = []
 
 
 def cause_of(spec):
@@ -504,7 +496,7 @@ def signature(item, want):
 # --------------------------------------------------------------------------------------------- whole files
 def gen_file(rng, tables):
     """A well-formed problem (5.2 constraints): list of card specs per block + title/message flags."""
-    P = [p for p in tables["particles"] if p not in ("u", "x", "y", "z", "c")]
+    P = list(tables["particles"])
     mode = rng.sample(P, rng.choice([1, 1, 2, 3]))
     ns = rng.randint(3, 9)
     snums = rng.sample(range(1, 200), ns)
@@ -590,8 +582,6 @@ def gen_file(rng, tables):
         if key in seen or d["name"] in ("tmp", "pd", "wwn", "dxc", "ext", "fcl", "elpt", "pwt", "nonu"):
             continue
         seen.add(key)
-        if d["body"][0] in ("numbers", "numbers_opt"):
-            d["body"][2] = _tame(d["body"][2])
         if d["body"][0] == "sdef" and not d["body"][1]:
             continue
         if d.get("pl"):
@@ -724,15 +714,24 @@ def shrink_file(item, want):
 
 
 # --------------------------------------------------------------------------------------------- single words, probes
+CTX_TEXT = {"plain": "{w}", "colon": "imp:{w}", "comma": "imp:n,{w}", "mode": "mode {w}", "par": "sdef par={w}", "spar": "sdef spar={w}"}
+
+
 def run_word(item):
+    """token type the real lexer gives the word in its context (the word is the last token of the text)"""
+    _mp()  # MontePy from the tree under verification (VERIF_REPO), never an installed or default one
     from montepy.input_parser import tokens as T
 
     lexer = {"particle": T.DataLexer, "cell": T.CellLexer, "surface": T.SurfaceLexer}[item["lexer"]]
+    text = CTX_TEXT[item.get("ctx", "plain")].format(w=item["word"])
     try:
-        toks = [t.type for t in lexer().tokenize(item["word"])]
+        toks = [t for t in lexer().tokenize(text)]
     except Exception as e:  # noqa: BLE001
         return "lex:" + type(e).__name__
-    return toks[0] if len(toks) == 1 else "multi:" + ",".join(toks)
+    if item.get("ctx", "plain") == "plain":
+        return toks[0].type if len(toks) == 1 else "multi:" + ",".join(t.type for t in toks)
+    last = toks[-1]
+    return last.type if last.value == item["word"] else "multi:" + ",".join(t.type for t in toks)
 
 
 def run_probe(item):
@@ -831,8 +830,8 @@ def run(chk):
         "and by the U-lexclass comparison, not proved",
         "C12_cfg covers cell cards, surface cards, number-list / MODE / material / thermal data cards; tally, FS, SDEF, "
         "SI/SP/SB/DS with an option letter and FC/SC cards are validated on the real parser only",
-        "G restrictions applied by the generator: nothing between # and its operand; no blank directly after the '(' of a "
-        "FILL/TRCL value; no line that BEGINS with # (vertical format); tabs are not generated; physical lines <= 80 columns",
+        "G restrictions applied by the generator: nothing between # and its operand; no line that BEGINS with # "
+        "(vertical format); tabs are not generated; physical lines <= 80 columns",
     ]
     chk.trusted_base = [
         "Lean 4.33.0 kernel",
@@ -840,6 +839,7 @@ def run(chk):
         "translator plug-in tools/extractors/c12_tables.py (dumps SLY productions and the registries)",
         "harness tools/props/c12.py and generator tools/vlib/g12.py",
     ]
+    _mp()  # import MontePy from VERIF_REPO in the parent, so that every forked worker uses the same tree
     leanio.prove(chk, "MontePyVerif.Props.C12", THEOREMS, "MontePyVerif.C12")
     if chk.thorough:
         leanio.leanchecker(chk, ["MontePyVerif.Props.C12"])
@@ -888,7 +888,7 @@ def run(chk):
         if ri.get("ok"):
             sp = it["spec"]
             if sp["kind"] == "cell":
-                reqs.append({"op": "dispatch_cell", "params": [[p["key"], (":" + ",".join(p["pl"])) if p.get("pl") else ""] for p in sp["params"]]})
+                reqs.append({"op": "dispatch_cell", "params": [[p["key"], (":" + ",".join(p["pl"])) if p.get("pl") else "", str(int(p["idx"])) if p.get("idx") else ""] for p in sp["params"]]})
             elif sp["kind"] == "surface":
                 reqs.append({"op": "surface_class", "mnemonic": sp["mn"], "n": len(g12.entries_values(sp["entries"]))})
             else:
@@ -997,9 +997,11 @@ def run(chk):
     for w in pool:
         for variant in {w, w.upper(), "".join(ch.upper() if wr.random() < 0.5 else ch for ch in w)}:
             for lx in ("particle", "cell", "surface"):
-                words.append({"lexer": lx, "word": variant})
+                words.append({"lexer": lx, "word": variant, "ctx": "plain"})
+            for ctx in ("colon", "comma", "mode", "par", "spar"):
+                words.append({"lexer": "cell" if ctx in ("colon", "comma") and wr.random() < 0.5 else "particle", "word": variant, "ctx": ctx})
     obs_w = pmap(run_word, words)
-    mod_w = drv.batch([{"op": "lex", "lexer": "surface" if w["lexer"] == "surface" else "particle", "word": w["word"]} for w in words])
+    mod_w = drv.batch([{"op": "lex", "lexer": "surface" if w["lexer"] == "surface" else "particle", "word": w["word"], "ctx": w["ctx"]} for w in words])
     for w, o, m in zip(words, obs_w, mod_w):
         chk.traces_validated += 1
         chk.count("unit:lexword")
@@ -1008,7 +1010,7 @@ def run(chk):
             continue
         if o != m:
             chk.disagreements_checked += 1
-            chk.broken_obligation("correspondence", "U-lexword (Model *.TEXT vs tokens.py)", {"impl": o, "model": m}, w)
+            chk.broken_obligation("correspondence", "U-lexword (Model *.TEXT / _expects_particle vs tokens.py)", {"impl": o, "model": m}, w)
     probes = [{"mnemonic": mn, "n": n} for mn, _ in TABLES["surfaceArities"] for n in range(1, 8)] + [{"mnemonic": mn.upper(), "n": n} for mn in ("p", "px", "c/z", "cz") for n in (1, 3, 4, 9, 10)]
     obs_p = pmap(run_probe, probes)
     mod_p = drv.batch([dict(p, op="surface_class") for p in probes])
@@ -1114,6 +1116,7 @@ def _conflicts():
 
 def replay(chk, payload):
     global TABLES
+    _mp()
     chk.rule = "replay of one stored case"
     drv = leanio.Driver(chk, "drv_c12")
     if not drv.ok:
